@@ -30,6 +30,9 @@ Walk(c, i, mode, rows, rawEvals, acc) ==
 
 Verdict(c) == Walk(c, 1, "raw", 0, 0, {})
               \cup (IF c.fes > c.budget THEN {"more-evaluations-than-budget"} ELSE {})
+              \* digests of the collected (state, control) and ds/dt matrices vs. a from-scratch re-collection
+              \* of the same real-system evaluations on a pristine system
+              \cup (IF c.data_crc # c.fresh_crc THEN {"training-data-content-differs-from-fresh-simulation"} ELSE {})
 Init == tid = 0
 Next == /\ tid < NCases /\ tid' = tid + 1
         /\ PrintT(<<"V", Cases[tid'].id, Verdict(Cases[tid'])>>)
